@@ -123,6 +123,12 @@ def run(ids):
                         kfails.append({"obligation": h["obligation"], "tags": h["props"], "message": "kani " + h["name"]})
                     elif r.get("status") != "ok":
                         kund.append(h["name"])
+            # reviewed-only glue (Vt::feed_str, Vt::resize): an edit leaves its properties undecided (check.py REVIEW_ONLY)
+            import weave, check
+            for key in weave.pinned_changed(REPO):
+                short = key.split("::", 1)[1] if "::" in key else key
+                if prop in check.REVIEW_ONLY.get(short, ()):
+                    und.append("%s changed: reviewed-only glue, %s undecided" % (short, prop))
             allf = fails + kfails
             props = sorted(set(t for f in allf for t in f["tags"]))
             meta["detection"] = {"alarm_for_target_property": prop in props, "properties_alarmed": props,
